@@ -37,6 +37,11 @@ pub fn pttl_to_restore_expire_time(pttl: Vec<u8>) -> Vec<u8> {
         // Reuse this vector
         expire_time.clear();
         expire_time.extend_from_slice(RESTORE_NO_EXPIRE)
+    } else if expire_time == RESTORE_NO_EXPIRE {
+        // PTTL returns 0 for a key with less than one millisecond left,
+        // while 0 means no expire for RESTORE. Use the smallest ttl instead.
+        expire_time.clear();
+        expire_time.extend_from_slice(b"1")
     }
     expire_time
 }
